@@ -162,6 +162,9 @@ func (fr *frame) execBlock(b *ssa.BasicBlock) *ssa.BasicBlock {
 	p := fr.p
 	for _, ins := range b.Instrs {
 		p.steps++
+		if pos := ins.Pos(); pos.IsValid() {
+			p.lastPos, p.curFn = pos, fr.fn
+		}
 		if p.steps > p.H.MaxSteps {
 			p.end("budget", "more than %d interpreter steps on one path", p.H.MaxSteps)
 		}
@@ -216,7 +219,7 @@ func (fr *frame) execBlock(b *ssa.BasicBlock) *ssa.BasicBlock {
 					}
 				}
 			}
-			panic(&goPanic{val: v, msg: msg})
+			panic(&goPanic{val: v, msg: msg, pos: p.where()})
 		case *ssa.Store:
 			ptr := fr.get(x.Addr).(*Ptr)
 			p.store(ptr, fr.get(x.Val))
